@@ -350,6 +350,8 @@ func (p *Parser) ParseSnippetVCL() ([]ast.Statement, error) {
 			stmt, err = p.ParseSyntheticBase64Statement()
 		case token.IF:
 			stmt, err = p.ParseIfStatement()
+		case token.SWITCH:
+			stmt, err = p.ParseSwitchStatement()
 		case token.GOTO:
 			stmt, err = p.ParseGotoStatement()
 		case token.INCLUDE:
